@@ -640,4 +640,11 @@ theorem revival_counterexample :
     (mutes envC (histC true).store (histC true).cache 6 lsC).muted = true := by
   decide
 
+/-- non-vacuity: the hypotheses of `mutes_eq_bruteforce` are satisfiable by a real history -/
+example : Run (fun _ => [[⟨.eq, "a", "1"⟩]]) envC 0 0 {} 0 [Op.set 0 inC "u" false, .mutes 1 lsC, .gc 2] := by
+  refine ⟨⟨rfl, rfl⟩, ?_, ⟨trivial, ?_, ⟨trivial, ?_, trivial⟩⟩⟩
+  · intro t h; simp [Op.time] at h; omega
+  · intro t h; simp [Op.time] at h; simp [Op.time]; omega
+  · intro t h; simp [Op.time] at h; simp [Op.time]; omega
+
 end AM.Silence
